@@ -43,7 +43,11 @@ Definition expect_table (t : table) (out : frame) : N :=
 Inductive agg_fn :=
 | AggCount                                           (* "count": the size of the group *)
 | AggTable (tbl : list (list cell * cell))           (* a function of the group's values taken in frame order *)
-| AggOpen.
+| AggOpen
+(* the forms that also say WHAT was passed as Fn (they let the executable model decide Err and the result type) *)
+| AggBuiltin (name : bytes) (tbl : list (list cell * cell))   (* a string other than "count"; tbl = reference values *)
+| AggUser (ty : ctype) (tbl : list (list cell * cell))        (* func([]T) T, T given by ty *)
+| AggOther.                                                   (* a Go value of any other type *)
 Definition agg_spec := (bytes * bytes * agg_fn)%type.   (* (column, as, function) *)
 
 Inductive frame_case :=
@@ -78,11 +82,25 @@ Definition newdata_cells (d : newdata) (is_enum : bool) : option (ctype * list c
   | DOther => None
   end.
 
+Fixpoint nodup_bytes (l : list bytes) : bool :=
+  match l with
+  | [] => true
+  | x :: t => negb (existsb (bytes_eqb x) t) && nodup_bytes t
+  end.
+
 (* New: whenever a frame is returned it holds exactly the supplied values in the requested order *)
 Definition new_oracle (data : list (bytes * newdata)) (order : list bytes) (enums : list (bytes * list bytes)) (out : frame) : N :=
   if ferr out then 0
   else
     let order' := match order with [] => sort_names (map fst data) | _ => order end in
+    (* a column order that names a column twice cannot hold exactly the supplied columns; a declared value set
+       listing a value twice is not a set: both must be rejected *)
+    if negb (nodup_bytes order') then 2
+    else if existsb (fun kv => match assocb (fst kv) data with
+                               | Some d => is_string_data d && negb (nodup_bytes (snd kv))
+                               | None => false
+                               end) enums then 2
+    else
     match abs out with
     | Ok t =>
         if negb (list_eqb bytes_eqb (tnames t) order') then 2
@@ -107,6 +125,45 @@ Definition new_oracle (data : list (bytes * newdata)) (order : list bytes) (enum
           if cols_ok && wf_frame out then 0 else 2
     | _ => 2
     end.
+
+(* ------------------------------------------------------------------ FilteredApply at table level *)
+
+(* cells of the matching rows spread back over all rows; z on the others *)
+Fixpoint spread (sel : list bool) (cells : list cell) (z : cell) : list cell :=
+  match sel with
+  | [] => []
+  | true :: sel' => match cells with c :: cells' => c :: spread sel' cells' z | [] => z :: spread sel' [] z end
+  | false :: sel' => z :: spread sel' cells z
+  end.
+
+Fixpoint keep_sel {A} (sel : list bool) (l : list A) : list A :=
+  match sel, l with
+  | true :: sel', x :: l' => x :: keep_sel sel' l'
+  | false :: sel', _ :: l' => keep_sel sel' l'
+  | _, _ => []
+  end.
+
+(* one instruction of FilteredApply on the table t, sel marking the rows that match the clause:
+   None = invalid (Err), Some None = open *)
+Definition tfiltered_instr (t : table) (sel : list bool) (i : instr) : option (option table) :=
+  let tm := mkTable (tnames t) (ttypes t) (keep_sel sel (trows t)) in
+  match tapply_instr tm i with
+  | None => None
+  | Some None => Some None
+  | Some (Some tm') =>
+      match ifn i with
+      | F0ColName src => if bytes_eqb src (idst i) then Some (Some t) else
+          match tcolumn tm' (idst i) with
+          | Some (ty, cells) => Some (Some (tset_col t (idst i) ty (spread sel cells (zero_cell ty))))
+          | None => Some None
+          end
+      | _ =>
+          match tcolumn tm' (idst i) with
+          | Some (ty, cells) => Some (Some (tset_col t (idst i) ty (spread sel cells (zero_cell ty))))
+          | None => Some None
+          end
+      end
+  end.
 
 (* ------------------------------------------------------------------ Eval: the value denoted by the tree *)
 
@@ -180,6 +237,7 @@ Definition eval_oracle (f : frame) (cx : ctx) (dst : bytes) (e : expr) (out : fr
        end.
 
 (* ------------------------------------------------------------------ Aggregate: one row per group *)
+From QF Require Import Gen.GenTables Model.Aggregate.
 
 Definition cells_eqb (a b : list cell) : bool := list_eqb cell_obs_eqb a b.
 
@@ -188,8 +246,8 @@ Definition agg_cell (f : frame) (a : agg_spec) (g : list nat) : outcome (option 
   let '(col, _, fn) := a in
   match fn with
   | AggCount => Ok (Some (CInt (Z.of_nat (length g))))
-  | AggOpen => Ok None
-  | AggTable tbl =>
+  | AggOpen | AggOther => Ok None
+  | AggTable tbl | AggBuiltin _ tbl | AggUser _ tbl =>
       match lookup_col f col with
       | None => Panic
       | Some c =>
@@ -202,9 +260,44 @@ Definition agg_cell (f : frame) (a : agg_spec) (g : list nat) : outcome (option 
       end
   end.
 
-Definition aggregate_oracle (f : frame) (keycols : list bytes) (groups : list (list nat)) (aggs : list agg_spec) (out : frame) : N :=
-  if ferr out then 0     (* validity is judged by the Go side (unknown column, name clash, function type) *)
+(* the model's description of an aggregation of the case; None = the case does not say what Fn was *)
+Definition agg_to_model (f : frame) (a : agg_spec) : option aggregation :=
+  let '(col, asname, fn) := a in
+  match fn with
+  | AggCount => Some (mkAgg (GName name_count) col asname)
+  | AggTable tbl =>
+      (* the engine passes a function of the column's own element type *)
+      let ty := match lookup_col f col with Some c => col_ftype c | None => TInt end in
+      Some (mkAgg (GUser ty tbl) col asname)
+  | AggBuiltin name _ => Some (mkAgg (GName name) col asname)
+  | AggUser ty tbl => Some (mkAgg (GUser ty tbl) col asname)
+  | AggOther => Some (mkAgg GOther col asname)
+  | AggOpen => None
+  end.
+
+(* the statement's error cases (Model/Aggregate.v: agg_invalid): an error of the frame or an unknown grouping
+   column, an unknown column, a result name already taken, a function the column type does not accept;
+   None = an aggregation whose Fn the case does not describe comes before any invalid one *)
+Definition agg_expect_err (f : frame) (keycols : list bytes) (aggs : list agg_spec) : option bool :=
+  if ferr f || negb (forallb (contains f) keycols) then Some true
   else
+    let g := mkGrouper (cols f) keycols [] false in
+    (fix go (names : list bytes) (l : list agg_spec) : option bool :=
+       match l with
+       | [] => Some false
+       | a :: rest =>
+           match agg_to_model f a with
+           | None => None
+           | Some m => if agg_invalid g names m then Some true else go (names ++ [agg_name m]) rest
+           end
+       end) keycols aggs.
+
+Definition aggregate_oracle (f : frame) (keycols : list bytes) (groups : list (list nat)) (aggs : list agg_spec) (out : frame) : N :=
+  match agg_expect_err f keycols aggs, ferr out with
+  | Some true, false => 2      (* an invalid aggregation was accepted *)
+  | Some false, true => 2      (* a valid request was rejected *)
+  | _, true => 0
+  | _, false =>
     match abs out with
     | Ok t =>
         let names := keycols ++ map (fun a => snd (fst a)) aggs in
@@ -234,7 +327,52 @@ Definition aggregate_oracle (f : frame) (keycols : list bytes) (groups : list (l
             end in
           if forallb row_ok (combine groups (trows t)) && wf_frame out then 0 else 2
     | _ => 2
-    end.
+    end
+  end.
+
+(* --- the exact comparison with the executable model (Model/Aggregate.v) --- *)
+
+(* reference values of the float built-ins, keyed by the Go function the name resolves to *)
+Definition agg_float_table (aggs : list agg_spec) : float_table :=
+  flat_map (fun a : agg_spec =>
+              match snd a with
+              | AggBuiltin name tbl =>
+                  match assocb name t_f_aggregations with
+                  | Some gofn => map (fun e => (gofn, fst e, snd e)) tbl
+                  | None => []
+                  end
+              | _ => []
+              end) aggs.
+
+(* the longest prefix of aggregations the case describes completely, and whether it is all of them *)
+Fixpoint agg_known_prefix (f : frame) (aggs : list agg_spec) : list aggregation * bool :=
+  match aggs with
+  | [] => ([], true)
+  | a :: rest =>
+      match agg_to_model f a with
+      | Some m => let '(ms, all) := agg_known_prefix f rest in (m :: ms, all)
+      | None => ([], false)
+      end
+  end.
+
+(* GroupBy's frame-level part is run with the observed groups standing for the hash table; the groups it
+   determines itself (error, no rows, no columns) must be the observed ones; then Aggregate is run *)
+Definition aggregate_model_code (f : frame) (keycols : list bytes) (groups : list (list nat)) (aggs : list agg_spec) (out : frame) : N :=
+  match group_by_with (fun _ _ => Ok groups) f keycols with
+  | Ok g =>
+      if negb (list_eqb (list_eqb Nat.eqb) (gindices g) groups) then 1
+      else
+        let '(ms, all) := agg_known_prefix f aggs in
+        match aggregate (agg_float_table aggs) g ms with
+        | Ok m =>
+            if all then model_code (Ok m) out
+            else if ferr m then (if ferr out then 0 else 1)   (* sticky: an error before the open aggregation *)
+            else 0
+        | Fail => 1
+        | Panic => 3
+        end
+  | _ => 3
+  end.
 
 Definition check_frame_case (c : frame_case) : N :=
   match c with
@@ -313,26 +451,25 @@ Definition check_frame_case (c : frame_case) : N :=
       let oracle :=
         if ferr f then expect_err out
         else
-          match ix f, is with
-          | _ :: _, [i] =>
+          match ix f with
+          | _ :: _ =>
               match filter_spec mt f cl, abs f with
               | VRows rows, Ok t =>
-                  (* rows matching the clause are computed as by Apply, the others get the zero value *)
-                  match ifn i, tcolumn t (isrc1 i) with
-                  | F1 tin tout tbl, Some (ty, cells) =>
-                      if check_name (idst i) && empty_name (isrc2 i) && ctype_eqb (ftype_of ty) tin && negb (ctype_eqb tout TEnum) then
-                        match omap (fun pc => if existsb (Nat.eqb (fst pc)) rows then tbl1 tbl (snd pc) else Ok (zero_cell tout))
-                                   (combine (ix f) cells) with
-                        | Ok outc => expect_table (tset_col t (idst i) tout outc) out
-                        | _ => 0
-                        end
-                      else 0
-                  | _, _ => 0
+                  (* every instruction computes the rows matching the clause as Apply does on those rows alone;
+                     the other rows of its destination column get the zero value of the column's type *)
+                  let sel := map (fun p => existsb (Nat.eqb p) rows) (ix f) in
+                  match fold_left (fun acc i => match acc with
+                                                | Some (Some t') => tfiltered_instr t' sel i
+                                                | other => other
+                                                end) is (Some (Some t)) with
+                  | Some (Some t') => expect_table t' out
+                  | Some None => 0
+                  | None => expect_err out
                   end
               | VError, _ => expect_err out
               | _, _ => 0
               end
-          | _, _ => 0
+          | _ => 0
           end in
       first_nonzero oracle (model_code (filtered_apply mt ut f cl is) out)
   | FRowNums f name out =>
@@ -353,7 +490,8 @@ Definition check_frame_case (c : frame_case) : N :=
       first_nonzero oracle (match equals f g with Ok b => if Bool.eqb b obs then 0 else 1 | _ => 3 end)
   | FNew data order enums out =>
       first_nonzero (new_oracle data order enums out) (model_code (new_frame data order enums) out)
-  | FAggregate f keycols groups aggs out => aggregate_oracle f keycols groups aggs out
+  | FAggregate f keycols groups aggs out =>
+      first_nonzero (aggregate_oracle f keycols groups aggs out) (aggregate_model_code f keycols groups aggs out)
   | FEval f ut cx dst call out =>
       let e := new_expr call in
       first_nonzero (eval_oracle f cx dst e out) (model_code (eval ut cx f dst e) out)
